@@ -1468,6 +1468,18 @@ func verifLemmaProgress(g *Graph, t *Task) {}
 //@     ite(e.Type == "claim" && decOK_ClaimEvent(content(e.Data)) && dec_ClaimEvent(content(e.Data)).ID == id
 //@           && parseOK(dec_ClaimEvent(content(e.Data)).TS), parseVal(dec_ClaimEvent(content(e.Data)).TS), cur)
 //@ spec effClaimAt(evs []Event, id string, c time.Time) time.Time = foldl8(evClaimAt, evs, c, id)
+//@ spec evTitleAt(e Event, id string, cur time.Time) time.Time =
+//@     ite(e.Type == "title" && decOK_TitleUpdateEvent(content(e.Data)) && dec_TitleUpdateEvent(content(e.Data)).ID == id
+//@           && parseOK(dec_TitleUpdateEvent(content(e.Data)).TS), parseVal(dec_TitleUpdateEvent(content(e.Data)).TS), cur)
+//@ spec effTitleAt(evs []Event, id string, c time.Time) time.Time = foldl8(evTitleAt, evs, c, id)
+//@ spec evBodyAt(e Event, id string, cur time.Time) time.Time =
+//@     ite(e.Type == "body" && decOK_BodyUpdateEvent(content(e.Data)) && dec_BodyUpdateEvent(content(e.Data)).ID == id
+//@           && parseOK(dec_BodyUpdateEvent(content(e.Data)).TS), parseVal(dec_BodyUpdateEvent(content(e.Data)).TS), cur)
+//@ spec effBodyAt(evs []Event, id string, c time.Time) time.Time = foldl8(evBodyAt, evs, c, id)
+//@ spec evEpicAt(e Event, id string, cur time.Time) time.Time =
+//@     ite(e.Type == "epic" && decOK_EpicAssignEvent(content(e.Data)) && dec_EpicAssignEvent(content(e.Data)).ID == id
+//@           && parseOK(dec_EpicAssignEvent(content(e.Data)).TS), parseVal(dec_EpicAssignEvent(content(e.Data)).TS), cur)
+//@ spec effEpicAt(evs []Event, id string, c time.Time) time.Time = foldl8(evEpicAt, evs, c, id)
 //@ spec isCreateFor(e Event, t *Task, m *TaskMeta) bool =
 //@     e.Type == ite(t.IsEpic, "new_epic", "new_task") && decOK_NewTaskEvent(content(e.Data)) && allocated(e.Data) &&
 //@     dec_NewTaskEvent(content(e.Data)).ID == t.ID && dec_NewTaskEvent(content(e.Data)).UUID == t.UUID &&
@@ -1513,6 +1525,12 @@ func verifLemmaProgress(g *Graph, t *Task) {}
 //@   step [claim-time:prefix,results-type,alloc] tasks[index-1].ClaimedBy != "" && metaOf(graph, tasks[index-1].ID) != nil && metaOf(graph, tasks[index-1].ID).LastClaimAt != zeroTime() ==>
 //@        effClaimAt(groupOf(events, old(len(events))), tasks[index-1].ID, zeroTime()) == metaOf(graph, tasks[index-1].ID).LastClaimAt
 //@   step [title:prefix,results-type,alloc] effTitle(groupOf(events, old(len(events))), tasks[index-1].ID, cTitle(tasks[index-1], metaOf(graph, tasks[index-1].ID))) == tasks[index-1].Title
+//@   step [title-time:prefix,results-type,alloc] metaOf(graph, tasks[index-1].ID) != nil && metaOf(graph, tasks[index-1].ID).LastTitleAt != zeroTime() && cAt(tasks[index-1], metaOf(graph, tasks[index-1].ID)) < metaOf(graph, tasks[index-1].ID).LastTitleAt ==>
+//@        effTitleAt(groupOf(events, old(len(events))), tasks[index-1].ID, zeroTime()) == metaOf(graph, tasks[index-1].ID).LastTitleAt
+//@   step [body-time:prefix,results-type,alloc] metaOf(graph, tasks[index-1].ID) != nil && metaOf(graph, tasks[index-1].ID).LastBodyAt != zeroTime() && cAt(tasks[index-1], metaOf(graph, tasks[index-1].ID)) < metaOf(graph, tasks[index-1].ID).LastBodyAt ==>
+//@        effBodyAt(groupOf(events, old(len(events))), tasks[index-1].ID, zeroTime()) == metaOf(graph, tasks[index-1].ID).LastBodyAt
+//@   step [epic-time:prefix,results-type,alloc] !tasks[index-1].IsEpic && metaOf(graph, tasks[index-1].ID) != nil && metaOf(graph, tasks[index-1].ID).LastEpicAt != zeroTime() && cAt(tasks[index-1], metaOf(graph, tasks[index-1].ID)) < metaOf(graph, tasks[index-1].ID).LastEpicAt ==>
+//@        effEpicAt(groupOf(events, old(len(events))), tasks[index-1].ID, zeroTime()) == metaOf(graph, tasks[index-1].ID).LastEpicAt
 //@   step [results-tail:prefix,results,alloc] len(events) - old(len(events)) - 1 - len(tasks[index-1].Results) >= 0 && len(events) - old(len(events)) - 1 - len(tasks[index-1].Results) <= 5 &&
 //@        (forall j int :: 0 <= j && j < len(tasks[index-1].Results) ==>
 //@            isResultFor(events[len(events) - len(tasks[index-1].Results) + j], tasks[index-1].ID) &&
